@@ -44,6 +44,14 @@ def canon(body, place, depth=0):
                 lp = d_[2]['lhs']['p'] if d_[1] == 'assign' else (d_[2].get('dest') or {}).get('p')
                 return bool(lp) and isinstance(lp[0], dict) and 'f' in lp[0] and lp[0]['f'] != proj[0]['f']
             ds = [d_ for d_ in ds if not other_field(d_)]
+        if proj and isinstance(proj[0], dict) and 'downcast' in proj[0] and len(ds) > 1 and l > body.arg_count:
+            # the payload of one variant of a value that is built on several paths (`cond.then_some(v)`: Some(v) on one, None on the other): only the
+            # paths that build that variant can be read through the downcast
+            same = [d_ for d_ in ds if d_[1] == 'assign' and not d_[2]['lhs']['p'] and d_[2]['rv']['rk'] == 'aggregate' and
+                    d_[2]['rv']['agg'].endswith('::' + str(proj[0]['downcast']))]
+            other = [d_ for d_ in ds if d_ not in same and not (d_[1] == 'assign' and not d_[2]['lhs']['p'] and d_[2]['rv']['rk'] == 'aggregate' and d_[2]['rv']['agg'].startswith('adt:'))]
+            if len(same) == 1 and not other:
+                ds = same
         if l <= body.arg_count or len(ds) != 1 or ds[0][1] != 'assign':
             break
         rv = ds[0][2]['rv']
